@@ -350,6 +350,11 @@ pub struct Scenario {
     /// real files to create in the scratch directory, e.g. a `--files-from` list
     #[serde(default)]
     pub real_files: Vec<RealFile>,
+    /// bytes to put on the process's REAL standard input as a pipe whose write end is already
+    /// closed (e.g. a `--files-from /dev/stdin` list arriving through a pipe: it can be read
+    /// exactly once); None = /dev/null
+    #[serde(with = "b64::opt", rename = "real_stdin_pipe_b64", default)]
+    pub real_stdin_pipe: Option<Vec<u8>>,
 }
 
 #[derive(Serialize, Deserialize, Clone, Debug, PartialEq, Eq)]
